@@ -552,5 +552,19 @@ pub mod sched {
         fn scope_exit(&self, token: usize) {
             self.wait_group(token as u64);
         }
+
+        fn run_scope_body(&self, body: Task) {
+            // rayon: a scope entered from outside the pool is injected into it and the caller
+            // blocks; any worker may run it — also one that is waiting for a scope of its own
+            let id = thread::current().id();
+            let is_worker = self.inner.lock().unwrap().workers.contains(&id);
+            if is_worker {
+                body();
+            } else {
+                let g = self.new_group();
+                self.submit(g, vec![body]);
+                self.wait_group(g);
+            }
+        }
     }
 }
